@@ -48,6 +48,28 @@ def if_mentions_bound(tree):
     return walk(tree)
 
 
+def in_guard_condition(tree, u):
+    """`u` occurs in the condition of an `if` one of whose branches is a raise `(x …)`."""
+    def mentions(t):
+        if t[0] == "sym":
+            return t[1] == u
+        if t[0] == "list":
+            return any(mentions(x) for x in t[1]) or (t[2] is not None and mentions(t[2]))
+        return False
+
+    def is_raise(t):
+        return t[0] == "list" and bool(t[1]) and t[1][0] == ("sym", "x")
+
+    def walk(t):
+        if t[0] != "list":
+            return False
+        it = t[1]
+        if len(it) == 4 and it[0] == ("sym", "if") and (is_raise(it[2]) or is_raise(it[3])) and mentions(it[1]):
+            return True
+        return any(walk(x) for x in it)
+    return walk(tree)
+
+
 def nested_if(tree):
     """an `if` form that contains another `if` form."""
     def has_if(t, top):
@@ -64,6 +86,26 @@ def nested_if(tree):
             return True
         return any(walk(x) for x in t[1])
     return walk(tree)
+
+
+def int_literals(tree):
+    """integer literals of the program, those of the main expression (outermost first) first."""
+    out = []
+
+    def bfs(t):
+        q = [t]
+        while q:
+            x = q.pop(0)
+            if x[0] == "int":
+                if x[1] not in out:
+                    out.append(x[1])
+            elif x[0] == "list":
+                q.extend(x[1])
+    forms = tree[1]
+    bfs(forms[-1])
+    for f in forms[2:-1]:
+        bfs(f)
+    return out[:10]
 
 
 def gen_case(rng, dialect):
@@ -160,10 +202,12 @@ def run(chk):
             if u not in lv:
                 continue        # a capture name: no leaf to vary independently
             pairs = []
-            for _ in range(4):
+            lits = [gen.int_atom(k + dk) for k in int_literals(c["tree"]) for dk in (0, 1, -1)]
+            for j in range(6):
                 fixed = {l[1]: progen.gen_value(rng, l[2]) for l in lv.values() if l[1] != u}
-                a1 = value_with(rng, c["shape"], dict(fixed, **{u: progen.gen_value(rng, lv[u][2])}))
-                v2 = rng.choice([b"", b"\x01", gen.rand_tree(rng, 2, True), progen.gen_value(rng, lv[u][2])])
+                v1 = progen.gen_value(rng, lv[u][2]) if (j % 2 == 0 or not lits) else rng.choice(lits)
+                a1 = value_with(rng, c["shape"], dict(fixed, **{u: v1}))
+                v2 = rng.choice([b"", b"\x01", gen.rand_tree(rng, 2, True), progen.gen_value(rng, lv[u][2])] + lits[:9])
                 a2 = value_with(rng, c["shape"], dict(fixed, **{u: v2}))
                 pairs += [a1, a2]
             comp_lines.append("text:O0 " + c["text"].encode().hex() + " " + " ".join(gen.hexv(a) for a in pairs))
@@ -181,6 +225,8 @@ def run(chk):
             chk.count("pair:same" if same else "pair:DIFFERENT")
             if not same:
                 sig = "unused:value-differs" if (res[j][0] == "V" and res[j + 1][0] == "V") else "unused:discarded-but-evaluated"
+                if sig == "unused:discarded-but-evaluated" and in_guard_condition(c["tree"], u):
+                    sig = "unused:guard-condition-parameter"
                 if sig == "unused:value-differs" and if_mentions_bound(c["tree"]):
                     sig = "unused:evaluator-com-leak"
                 elif sig == "unused:value-differs" and nested_if(c["tree"]):
